@@ -212,6 +212,25 @@ def p_buildProtocol(s, peering, addr):
                 set(d) == {'Opens', 'Notifications', 'Updates', 'Keepalives', 'RouteRefresh'}
         return z3.BoolVal(bool(ok))
     s.post.append(('C18-fresh-counters', fresh_counters))
+
+    def fresh_tables():
+        # C19: the version counters and the per-rule bookkeeping tables belong to the connection: a new instance owns
+        # empty tables and zeroed counters (not the class's, not the previous connection's)
+        newp = fsm.f.get('protocol')
+        if isinstance(newp, Any):
+            return z3.BoolVal(True)
+        if not isinstance(newp, Obj):
+            return z3.BoolVal(False)
+        ok = True
+        for k in ('flowspec_send_dict', 'flowspec_receive_dict', 'sr_send_dict', 'sr_receive_dict', 'mpls_vpn_send_dict',
+                  'mpls_vpn_receive_dict'):
+            d = newp.f.get(k)
+            ok = ok and isinstance(d, dict) and len(d) == 0
+        for k in ('send_version', 'receive_version'):
+            d = newp.f.get(k)
+            ok = ok and isinstance(d, dict) and len(d) > 0 and all((isinstance(v, int) and v == 0) for v in d.values())
+        return z3.BoolVal(bool(ok))
+    s.post.append(('C19-fresh-tables', fresh_tables))
     return ANY
 
 
